@@ -169,10 +169,11 @@ theorem pixLoop_safe (pix : Array UInt8) (n k : Nat) (hn : n ≤ 64) (cnt off : 
           exact this
       · rfl
 
-theorem rowLoop_safe (pix : Array UInt8) (width stride n k : Nat) (hn : n ≤ 64)
+theorem rowLoop_safe (pix : Array UInt8) (plen width stride n k : Nat) (hn : n ≤ 64)
     (rows y : Nat) (s : LoopSt) (h : Safe f s) (hok : s.ok = true) (hlen : pix.size < 9223372036854775808)
-    (hpix : ∀ y', y ≤ y' → y' < y + rows → y' * stride + k * width ≤ pix.size) :
-    Safe f (rowLoop pix width (stride : Int) n k rows y s) := by
+    (hple : plen ≤ pix.size)
+    (hpix : ∀ y', y ≤ y' → y' < y + rows → y' * stride + k * width ≤ plen) :
+    Safe f (rowLoop pix plen width (stride : Int) n k rows y s) := by
   induction rows generalizing y s with
   | zero => simpa [rowLoop] using h
   | succ rows ih =>
@@ -186,6 +187,7 @@ theorem rowLoop_safe (pix : Array UInt8) (width stride n k : Nat) (hn : n ≤ 64
       have hcast : wrapInt64 ((y : Int) * (stride : Int)) = ((y * stride : Nat) : Int) := by
         rw [← Int.natCast_mul]; exact wrapInt64_natCast _ (by omega)
       have hno : ¬ (wrapInt64 ((y : Int) * (stride : Int)) < 0 ∨
+          wrapInt64 ((y : Int) * (stride : Int)) > (plen : Int) ∨
           wrapInt64 ((y : Int) * (stride : Int)) + ((k * width : Nat) : Int) > (pix.size : Int)) := by
         rw [hcast]; omega
       simp only [hno, ↓reduceIte]
@@ -229,11 +231,11 @@ def finish (s : LoopSt) : Result :=
   else
     ⟨s.e, s.w, if s.e.oob then .panic else .writeError⟩
 
-theorem encode_valid_eq (e : Enc) (w : Writer) (pix : Array UInt8) (width height stride : Nat) (depth colorType : UInt8)
+theorem encode_valid_eq (e : Enc) (w : Writer) (pix : Array UInt8) (plen width height stride : Nat) (depth colorType : UInt8)
     (hw2 : width ≤ 0xFFFFFF) (hh2 : height ≤ 0xFFFFFF)
     (hd : depth = 8 ∨ depth = 16) (hc : colorType = 1 ∨ colorType = 2 ∨ colorType = 3) :
-    encode e w pix width height stride depth colorType =
-      finish (rowLoop pix width (stride : Int) (loopParams depth colorType).1 (loopParams depth colorType).2 height 0
+    encode e w pix plen width height stride depth colorType =
+      finish (rowLoop pix plen width (stride : Int) (loopParams depth colorType).1 (loopParams depth colorType).2 height 0
         ⟨init e width height depth colorType, w, eiFirst, true⟩) := by
   have hvalid : ¬ ((width : Int) < 0 ∨ (height : Int) < 0 ∨ (depth ≠ 8 ∧ depth ≠ 16) ∨
       pngFileFormatEncoding colorType = 0xFF) := by
@@ -267,19 +269,20 @@ theorem finish_safe (s : LoopSt) (hs : Safe f s) :
 /-- `Encode` on valid arguments, ANY writer, ANY prior buffer content: the encoder stays usable
 (all stores in range), the status is `ok` or `writeError`, and it is `writeError` exactly when the
 failing `Write` call was made — which is then the last call. -/
-theorem encode_safe (e : Enc) (w : Writer) (pix : Array UInt8) (width height stride : Nat) (depth colorType : UInt8)
+theorem encode_safe (e : Enc) (w : Writer) (pix : Array UInt8) (plen width height stride : Nat) (depth colorType : UInt8)
     (he : Usable e) (hw : WOk f w true) (hlen : pix.size < 9223372036854775808)
+    (hple : plen ≤ pix.size)
     (hw2 : width ≤ 0xFFFFFF) (hh2 : height ≤ 0xFFFFFF)
     (hd : depth = 8 ∨ depth = 16) (hc : colorType = 1 ∨ colorType = 2 ∨ colorType = 3)
-    (hpix : ∀ y', y' < height → y' * stride + (loopParams depth colorType).2 * width ≤ pix.size) :
-    Usable (encode e w pix width height stride depth colorType).e ∧
-    (((encode e w pix width height stride depth colorType).status = .ok ∧
-        WOk f (encode e w pix width height stride depth colorType).w true) ∨
-     ((encode e w pix width height stride depth colorType).status = .writeError ∧
-        WOk f (encode e w pix width height stride depth colorType).w false)) := by
+    (hpix : ∀ y', y' < height → y' * stride + (loopParams depth colorType).2 * width ≤ plen) :
+    Usable (encode e w pix plen width height stride depth colorType).e ∧
+    (((encode e w pix plen width height stride depth colorType).status = .ok ∧
+        WOk f (encode e w pix plen width height stride depth colorType).w true) ∨
+     ((encode e w pix plen width height stride depth colorType).status = .writeError ∧
+        WOk f (encode e w pix plen width height stride depth colorType).w false)) := by
   have hn64 : (loopParams depth colorType).1 ≤ 64 := by
     rcases hd with rfl | rfl <;> rcases hc with rfl | rfl | rfl <;> decide
-  rw [encode_valid_eq e w pix width height stride depth colorType hw2 hh2 hd hc]
+  rw [encode_valid_eq e w pix plen width height stride depth colorType hw2 hh2 hd hc]
   apply finish_safe
   have hi := init_usable he width height depth colorType
   have h0 : ∀ e0 : Enc, Usable e0 → Safe f ⟨e0, w, eiFirst, true⟩ := by
@@ -287,16 +290,16 @@ theorem encode_safe (e : Enc) (w : Writer) (pix : Array UInt8) (width height str
     refine ⟨h, ?_, hw⟩
     show eiFirst ≤ 65528
     decide
-  exact rowLoop_safe pix width stride _ _ hn64 height 0 _ (h0 _ hi) rfl hlen (fun y' _ h2 => hpix y' (by omega))
+  exact rowLoop_safe pix plen width stride _ _ hn64 height 0 _ (h0 _ hi) rfl hlen hple (fun y' _ h2 => hpix y' (by omega))
 
 /-- Rejected arguments: an error status, the encoder and the writer untouched (nothing written). -/
-theorem encode_rejects (e : Enc) (w : Writer) (pix : Array UInt8) (width height stride : Int) (depth colorType : UInt8)
+theorem encode_rejects (e : Enc) (w : Writer) (pix : Array UInt8) (plen : Nat) (width height stride : Int) (depth colorType : UInt8)
     (hbad : width < 0 ∨ height < 0 ∨ (depth ≠ 8 ∧ depth ≠ 16) ∨ ¬ (colorType = 1 ∨ colorType = 2 ∨ colorType = 3)
       ∨ width > 0xFFFFFF ∨ height > 0xFFFFFF) :
-    ((encode e w pix width height stride depth colorType).status = .invalidArgument ∨
-     (encode e w pix width height stride depth colorType).status = .unsupportedSize) ∧
-    (encode e w pix width height stride depth colorType).e = e ∧
-    (encode e w pix width height stride depth colorType).w = w := by
+    ((encode e w pix plen width height stride depth colorType).status = .invalidArgument ∨
+     (encode e w pix plen width height stride depth colorType).status = .unsupportedSize) ∧
+    (encode e w pix plen width height stride depth colorType).e = e ∧
+    (encode e w pix plen width height stride depth colorType).w = w := by
   unfold encode
   by_cases h1 : width < 0 ∨ height < 0 ∨ (depth ≠ 8 ∧ depth ≠ 16) ∨ pngFileFormatEncoding colorType = 0xFF
   · simp [h1]
